@@ -79,6 +79,8 @@ pub fn install_panic_hook() {
     }));
 }
 
+pub fn last_panic() -> String { LAST_PANIC.with(|p| p.borrow().clone()) }
+
 /// Panic classes shared with the model (Render.v panic_code).
 pub fn classify_panic(msg: &str) -> u64 {
     if msg.contains("capacity overflow") { 6 }
